@@ -263,7 +263,8 @@ def _report(ctx, hbin, r, model_line, verdict, kind_of):
         "original_history": r[2],
         "reproduced_when_replayed_alone": reproduced,
         "shape": {"cache": kind, "verdict": (vv or "").split(":")[0], "classes": ",".join(classes)},
-        "token_format": "<text id|->/<a|m|version,hash>/<concrete shape>; observed <class>|x:<executed text>|<cache calls>",
+        "token_format": "<text id|->/<a|m|version,hash>/<concrete shape>[^operationName]; observed <class>|x:<executed text>[.<index of the executed operation in a fresh parse of that text>]|<cache calls>; "
+                        "cache <map|no|lruN>[+q[M] = parsed-document cache (map / LRU of M)][@http]",
         "replay": "cd /verif/go && go run -tags verif ./harness/c15 -replay '%s|%s'   # then compare with: driver_c15 run/chk; "
                   "Spec = GqlgenVerif.Apq.specOk (theorem model_satisfies_spec)" % (kind, " ".join(small)),
     }
